@@ -391,8 +391,17 @@ def run(chk, scratch):
         w, clusters = coverage_world(seed, kind_sets[(i + 1) % len(kind_sets)], annotated=annotated)
         pipeline.write_world(w, d)
         extra = ["--high_memory"] if i % 4 >= 2 else []
-        r = pipeline.run(d, os.path.join(d, "out"), threads=2, annotated=annotated, extra=extra + ["--no_model_construction"])
-        return i, d, w, clusters, seed, annotated, extra, r
+        bams = None
+        if i % 2 == 1 or i % 4 == 2:
+            # the records in two BAM files of ONE experiment: the first file holds the reads of the first cluster only (it has no alignment in
+            # any other region), the second file everything else
+            first = set(clusters[0]["reads"]) if clusters else set()
+            bams = [os.path.join(d, "part0.bam"), os.path.join(d, "part1.bam")]
+            w.write_bam(bams[0], reads=[r_ for r_ in w.reads if r_.name in first])
+            w.write_bam(bams[1], reads=[r_ for r_ in w.reads if r_.name not in first])
+            extra = extra + ["--read_group", "file_name"]
+        r = pipeline.run(d, os.path.join(d, "out"), threads=2, annotated=annotated, bam=bams, extra=extra + ["--no_model_construction"])
+        return i, d, w, clusters, seed, annotated, extra + (["two BAM files"] if bams else []), r
     for i, d, w, clusters, seed, annotated, extra, r in runner.parallel(cli, list(range(n_cli)), workers=4):
         desc = "CLI run, world %d, annotated=%s %s" % (seed, annotated, " ".join(extra))
         wit = {"world_seed": seed, "kinds": [c["kind"] for c in clusters], "annotated": annotated, "extra": extra}
